@@ -27,8 +27,9 @@ theorem Table.lookup_mem {tbl : Table} {s : String} {e : Elem} (h : tbl.lookup s
       exact ⟨r', by simp [hm], he⟩
 
 /-- over a well-formed table every tree made of table elements has consistent node kinds -/
-theorem Expr.shape_of_over {tbl : Table} (hT : tbl.WellFormed) : ∀ {e : Expr}, e.Over tbl → e.Shape
+theorem Expr.shape_of_over {tbl : Table} (hT : tbl.WellFormed) : ∀ {e : Expr}, e.OverW tbl → e.Shape
   | .leaf _, _ => trivial
+  | .words _, _ => trivial
   | .app0 f, h => by
     obtain ⟨hl, ha⟩ := h
     obtain ⟨r, hm, he⟩ := Table.lookup_mem hl
@@ -48,6 +49,7 @@ theorem Expr.shape_of_over {tbl : Table} (hT : tbl.WellFormed) : ∀ {e : Expr},
 /-- the minimal printer produces a writing -/
 theorem Expr.prMin_pr : ∀ (e : Expr), e.Shape → ∀ a b, Pr a b e (e.prMin a b)
   | .leaf s, _, a, b => Pr.leaf a b s
+  | .words ws, _, a, b => Pr.words a b ws
   | .app0 f, h, a, b => by
     simp only [Expr.prMin]
     split
@@ -80,6 +82,7 @@ theorem Expr.prMin_pr : ∀ (e : Expr), e.Shape → ∀ a b, Pr a b e (e.prMin a
 /-- the fully parenthesised printer produces a writing (in every context) -/
 theorem Expr.prFull_pr : ∀ (e : Expr), e.Shape → ∀ a b, Pr a b e e.prFull
   | .leaf s, _, a, b => Pr.leaf a b s
+  | .words ws, _, a, b => Pr.words a b ws
   | .app0 f, h, a, b => Pr.paren a b _ [.el f] (Pr.const 0 0 f h (Nat.zero_le _))
   | .app1 f x, h, a, b => by
     obtain ⟨_, hx⟩ := h
@@ -151,10 +154,14 @@ theorem classify_el {tbl : Table} {s : String} {f : Elem} (h : classify tbl s = 
 
 /-- all tokens of a writing of a tree over the table are classified as themselves -/
 theorem Pr.fix {tbl : Table} (hT : tbl.WellFormed) {a b : Nat} {e : Expr} {ts : List Tok} (hp : Pr a b e ts) :
-    e.Over tbl → ∀ t ∈ ts, Tok.Fix tbl t := by
+    e.OverW tbl → ∀ t ∈ ts, Tok.Fix tbl t := by
   obtain ⟨flp, frp, fcm⟩ := fix_punct hT
   induction hp with
   | leaf a b s => intro ho t ht; simp at ht; subst ht; exact ho
+  | words a b ws =>
+    intro ho t ht
+    obtain ⟨w, hw, rfl⟩ := List.mem_map.1 ht
+    exact ho w hw
   | const a b f _ _ => intro ho t ht; simp at ht; subst ht; exact fix_el ho.1
   | un a b u x ts _ _ _ _ ih =>
     intro ho t ht
@@ -195,8 +202,11 @@ theorem Pr.fix {tbl : Table} (hT : tbl.WellFormed) {a b : Nat} {e : Expr} {ts : 
     · subst h; exact frp
 
 /-- the postfix tokens of a tree over the table classify as themselves -/
-theorem Expr.pfx_fix {tbl : Table} : ∀ {e : Expr}, e.Over tbl → ∀ t ∈ e.pfx, Tok.Fix tbl t
+theorem Expr.pfx_fix {tbl : Table} : ∀ {e : Expr}, e.OverW tbl → ∀ t ∈ e.pfx, Tok.Fix tbl t
   | .leaf s, ho, t, ht => by simp [Expr.pfx] at ht; subst ht; exact ho
+  | .words ws, ho, t, ht => by
+    obtain ⟨w, hw, rfl⟩ := List.mem_map.1 ht
+    exact ho w hw
   | .app0 f, ho, t, ht => by simp [Expr.pfx] at ht; subst ht; exact fix_el ho.1
   | .app1 f x, ho, t, ht => by
     simp only [Expr.pfx, List.mem_append, List.mem_cons, List.not_mem_nil, or_false] at ht
